@@ -89,7 +89,8 @@ inductive Ev
   /-- handler `h` entered for binding `key`, its `n`-th invocation, with event flags `flags`;
       `occ` is the occurrence delivering it (`0` for notifications) -/
   | enter (key h n flags occ : Nat)
-  | leave (ret : Int)
+  /-- the handler called for binding `key` on behalf of occurrence `occ` (`0`: a notification) returned `ret` -/
+  | leave (key occ : Nat) (ret : Int)
   | actBegin (i : Nat)
   | actEnd
   | bound (key : Nat) (id : Int) (ev : Int) (first : Bool) (flags : BFlags)
@@ -276,7 +277,7 @@ def exec : Nat → Task → St → Res (St × Int)
         -- handlers take no action on an owner that is being destroyed
         let as := if fl / EV_DESTROY % 2 = 1 then [] else b.acts
         match exec fuel (.acts key 0 as) st1 with
-        | .ok (st2, _) => .ok (st2.push (Ev.leave b.ret), b.ret)
+        | .ok (st2, _) => .ok (st2.push (Ev.leave key occ b.ret), b.ret)
         | e => e
     | .acts self i as =>
       match as with
